@@ -762,13 +762,15 @@ def mutation_cases(draw):
         case["axes"] = draw(axes_strategy(kinds=("unit", "int")))
         names = PNAMES[law]
         for _ in range(nops):
-            kind = draw(st.sampled_from(["set", "set", "set", "read", "ps", "dim"]))
+            kind = draw(st.sampled_from(["set", "set", "set", "read", "read", "ps", "dim"]))
             if kind == "set":
                 nm = draw(st.sampled_from(names))
                 lo, hi = NU_RANGE[nm] if is_nu(nm) else (0, len(MOD) - 1)
                 op = dict(op="set", name=nm, base=draw(st.integers(lo, hi)))
                 if shape and draw(st.booleans()):
                     op["arr"] = [draw(st.integers(-4, 4)) for _ in range(int(np.prod(shape)))]
+                    # the caller may also modify the array it passed before IN PLACE and assign the same object again
+                    op["inplace"] = draw(st.booleans())
                 ops.append(op)
             elif kind == "read":
                 ops.append(dict(op="read", what=draw(st.sampled_from(["C", "S", "CS", "SC"]))))
@@ -824,6 +826,11 @@ def check_mutation(case, rec):
     effective = 0
     pending = None
     reads_after_change = 0
+    # the array objects the harness passed to the law, by parameter name (the constructor arguments first)
+    held = dict(mat.P) if getattr(mat, "P", None) else {}
+    for _nm, _val in held.items():
+        if isinstance(_val, np.ndarray):
+            setattr(law, _nm, _val)  # same values: makes sure the law holds exactly the objects the harness keeps
     for op in case["ops"]:
         kind = op["op"]
         if kind == "read":
@@ -840,7 +847,14 @@ def check_mutation(case, rec):
                 rec.label("mutation:op_dropped_inadmissible")
                 continue
             changed = not np.array_equal(np.asarray(state["P"][nm]), np.asarray(val))
-            setattr(law, nm, val)
+            prev = held.get(nm)
+            if op.get("inplace") and isinstance(prev, np.ndarray) and isinstance(val, np.ndarray) and prev.shape == val.shape:
+                prev[...] = val  # same object, new content
+                setattr(law, nm, prev)
+                rec.label("mutation:set_inplace_same_object")
+            else:
+                held[nm] = val.copy() if isinstance(val, np.ndarray) else val
+                setattr(law, nm, held[nm])
             state["P"] = trial
             if changed:
                 effective += 1
